@@ -201,6 +201,11 @@ pub open spec fn be64s(xs: Seq<u64>) -> Seq<u8>
 {
     if xs.len() == 0 { Seq::<u8>::empty() } else { be64s(xs.drop_last()) + be64(xs.last()) }
 }
+pub open spec fn le64s(xs: Seq<u64>) -> Seq<u8>
+    decreases xs.len()
+{
+    if xs.len() == 0 { Seq::<u8>::empty() } else { le64s(xs.drop_last()) + le64(xs.last()) }
+}
 pub proof fn lemma_be64s_len(xs: Seq<u64>)
     ensures be64s(xs).len() == 8 * xs.len(),
     decreases xs.len()
@@ -259,6 +264,346 @@ pub proof fn lemma_pow256()
     ensures pow256(1) == 256, pow256(4) == 0x1_0000_0000, pow256(8) == 0x1_0000_0000_0000_0000,
 {
     reveal_with_fuel(pow256, 9);
+}
+
+
+pub proof fn lemma_leb_len(n: nat)
+    ensures leb(n).len() >= 1,
+    decreases n
+{
+    if n >= 128 { lemma_leb_len(n / 128); }
+}
+pub proof fn lemma_frame_len(e: Ent)
+    ensures frame(e).len() >= 2 + e.0.len() + e.1.len(),
+{
+    lemma_leb_len(e.0.len()); lemma_leb_len(e.1.len());
+}
+pub proof fn lemma_start_of_step(es: Seq<Ent>, i: int)
+    requires 0 <= i < es.len(),
+    ensures
+        payload(es.subrange(0, i + 1)) == payload(es.subrange(0, i)) + frame(es[i]),
+        start_of(es, i + 1) == start_of(es, i) + frame(es[i]).len(),
+        start_of(es, i + 1) >= start_of(es, i) + 2,
+{
+    let p = es.subrange(0, i + 1);
+    assert(p.drop_last() == es.subrange(0, i));
+    assert(p.last() == es[i]);
+    lemma_frame_len(es[i]);
+}
+pub proof fn lemma_payload_prefix(es: Seq<Ent>, i: int)
+    requires 0 <= i <= es.len(),
+    ensures
+        payload(es.subrange(0, i)).is_prefix_of(payload(es)),
+        start_of(es, i) <= payload(es).len(),
+    decreases es.len() - i
+{
+    if i < es.len() {
+        lemma_start_of_step(es, i);
+        lemma_payload_prefix(es, i + 1);
+        let a = payload(es.subrange(0, i)); let b = payload(es.subrange(0, i + 1)); let c = payload(es);
+        assert(a.is_prefix_of(b));
+        assert(a.is_prefix_of(c)) by {
+            assert(a.len() <= b.len() <= c.len());
+            assert forall|k: int| 0 <= k < a.len() implies a[k] == c[k] by { assert(a[k] == b[k]); assert(b[k] == c[k]); }
+        }
+    } else {
+        assert(es.subrange(0, i) == es);
+    }
+}
+pub proof fn lemma_payload_at(es: Seq<Ent>, i: int)
+    requires 0 <= i < es.len(),
+    ensures
+        start_of(es, i + 1) <= payload(es).len(),
+        payload(es).subrange(start_of(es, i), start_of(es, i + 1)) == frame(es[i]),
+{
+    lemma_start_of_step(es, i);
+    lemma_payload_prefix(es, i + 1);
+    let b = payload(es.subrange(0, i + 1)); let c = payload(es);
+    assert(c.subrange(start_of(es, i), start_of(es, i + 1)) =~= frame(es[i])) by {
+        assert forall|k: int| 0 <= k < frame(es[i]).len() implies c[start_of(es, i) + k] == frame(es[i])[k] by {
+            assert(b[start_of(es, i) + k] == frame(es[i])[k]);
+            assert(b[start_of(es, i) + k] == c[start_of(es, i) + k]);
+        }
+    }
+}
+pub proof fn lemma_start_of_mono(es: Seq<Ent>, i: int, j: int)
+    requires 0 <= i < j <= es.len(),
+    ensures start_of(es, i) < start_of(es, j),
+    decreases j - i
+{
+    lemma_start_of_step(es, j - 1);
+    if i < j - 1 { lemma_start_of_mono(es, i, j - 1); }
+}
+pub proof fn lemma_start_of_ends(es: Seq<Ent>)
+    ensures start_of(es, 0) == 0, start_of(es, es.len() as int) == payload(es).len(),
+{
+    assert(es.subrange(0, 0) == Seq::<Ent>::empty());
+    assert(es.subrange(0, es.len() as int) == es);
+}
+
+
+// ---------------------------------------------------------------------------
+// search oracles on a strictly sorted entry list (C02), written from the statement
+// ---------------------------------------------------------------------------
+/// c is the index of the entry with the smallest key >= q (c == |es| when there is none)
+pub open spec fn is_ceil(es: Seq<Ent>, q: Seq<u8>, c: int) -> bool {
+    &&& 0 <= c <= es.len()
+    &&& forall|j: int| 0 <= j < c ==> lex_lt(#[trigger] es[j].0, q)
+    &&& (c < es.len() ==> lex_le(q, es[c].0))
+}
+/// f is the index of the entry with the largest key <= q (f == -1 when there is none)
+pub open spec fn is_floor(es: Seq<Ent>, q: Seq<u8>, f: int) -> bool {
+    &&& -1 <= f < es.len()
+    &&& forall|j: int| f < j < es.len() ==> lex_lt(q, #[trigger] es[j].0)
+    &&& (f >= 0 ==> lex_le(es[f].0, q))
+}
+pub open spec fn view_of(e: Option<(&[u8], &[u8])>) -> Option<Ent> {
+    match e { Some(p) => Some((p.0@, p.1@)), None => None }
+}
+pub open spec fn ent_at(es: Seq<Ent>, i: int) -> Option<Ent> {
+    if 0 <= i < es.len() { Some(es[i]) } else { None }
+}
+
+
+pub proof fn lemma_footer_last(n: int, iv: int)
+    requires n >= 0, iv >= 1,
+    ensures
+        footer_len(n, iv) >= 1,
+        (footer_len(n, iv) - 1) * iv >= 0,
+        n > 0 ==> (footer_len(n, iv) - 1) * iv <= n - 1,
+        n == 0 ==> (footer_len(n, iv) - 1) * iv == 0,
+        forall|j: int| 0 <= j < footer_len(n, iv) ==> 0 <= #[trigger] (j * iv) && (n > 0 ==> j * iv <= n - 1) && (n == 0 ==> j * iv == 0),
+{
+    if n > 0 {
+        let q = (n - 1) / iv;
+        assert(q * iv <= n - 1) by (nonlinear_arith) requires q == (n - 1) / iv, iv >= 1, n >= 1;
+        assert(q >= 0) by (nonlinear_arith) requires q == (n - 1) / iv, iv >= 1, n >= 1;
+        assert forall|j: int| 0 <= j < q + 1 implies 0 <= #[trigger] (j * iv) && j * iv <= n - 1 by {
+            assert(0 <= j * iv && j * iv <= q * iv) by (nonlinear_arith) requires 0 <= j <= q, iv >= 1;
+        }
+    }
+}
+
+
+// ---- parse uniqueness: a payload determines its entries ----
+/// LEB128 is prefix-free: two encodings followed by anything agree only if the numbers agree
+pub proof fn lemma_leb_prefix_free(a: nat, b: nat, x: Seq<u8>, y: Seq<u8>)
+    requires leb(a) + x == leb(b) + y,
+    ensures a == b, x == y,
+    decreases a
+{
+    let l = leb(a) + x; let r = leb(b) + y;
+    lemma_leb_len(a); lemma_leb_len(b);
+    assert(l[0] == leb(a)[0]);
+    assert(r[0] == leb(b)[0]);
+    if a < 128 {
+        assert(leb(a)[0] == a as u8);
+        if b >= 128 { assert(leb(b)[0] == ((b % 128) + 128) as u8); assert(false); }
+        assert(leb(b)[0] == b as u8);
+        assert(a == b);
+        assert(x =~= l.subrange(1, l.len() as int));
+        assert(y =~= r.subrange(1, r.len() as int));
+    } else {
+        assert(leb(a)[0] == ((a % 128) + 128) as u8);
+        if b < 128 { assert(leb(b)[0] == b as u8); assert(false); }
+        assert(leb(b)[0] == ((b % 128) + 128) as u8);
+        assert(a % 128 == b % 128);
+        let la = leb(a / 128); let lb = leb(b / 128);
+        assert(leb(a) =~= seq![((a % 128) + 128) as u8] + la);
+        assert(leb(b) =~= seq![((b % 128) + 128) as u8] + lb);
+        assert(la + x =~= l.subrange(1, l.len() as int));
+        assert(lb + y =~= r.subrange(1, r.len() as int));
+        lemma_leb_prefix_free(a / 128, b / 128, x, y);
+    }
+}
+
+pub proof fn lemma_frame_parse(e1: Ent, e2: Ent, x: Seq<u8>, y: Seq<u8>)
+    requires frame(e1) + x == frame(e2) + y,
+    ensures e1 == e2, x == y,
+{
+    let x1 = leb(e1.1.len()) + e1.0 + e1.1 + x;
+    let y1 = leb(e2.1.len()) + e2.0 + e2.1 + y;
+    assert(frame(e1) + x =~= leb(e1.0.len()) + x1);
+    assert(frame(e2) + y =~= leb(e2.0.len()) + y1);
+    lemma_leb_prefix_free(e1.0.len(), e2.0.len(), x1, y1);
+    let x2 = e1.0 + e1.1 + x; let y2 = e2.0 + e2.1 + y;
+    assert(x1 =~= leb(e1.1.len()) + x2);
+    assert(y1 =~= leb(e2.1.len()) + y2);
+    lemma_leb_prefix_free(e1.1.len(), e2.1.len(), x2, y2);
+    assert(e1.0 =~= x2.subrange(0, e1.0.len() as int));
+    assert(e2.0 =~= y2.subrange(0, e2.0.len() as int));
+    assert(e1.1 =~= x2.subrange(e1.0.len() as int, (e1.0.len() + e1.1.len()) as int));
+    assert(e2.1 =~= y2.subrange(e2.0.len() as int, (e2.0.len() + e2.1.len()) as int));
+    assert(x =~= x2.subrange((e1.0.len() + e1.1.len()) as int, x2.len() as int));
+    assert(y =~= y2.subrange((e2.0.len() + e2.1.len()) as int, y2.len() as int));
+}
+
+pub proof fn lemma_payload_front(es: Seq<Ent>)
+    requires es.len() > 0,
+    ensures payload(es) == frame(es[0]) + payload(es.drop_first()),
+    decreases es.len()
+{
+    if es.len() == 1 {
+        assert(es.drop_last() =~= Seq::<Ent>::empty());
+        assert(es.drop_first() =~= Seq::<Ent>::empty());
+        assert(payload(es) =~= frame(es[0]) + payload(es.drop_first()));
+    } else {
+        lemma_payload_front(es.drop_last());
+        assert(es.drop_last().drop_first() =~= es.drop_first().drop_last());
+        assert(es.drop_first().last() == es.last());
+        assert(es.drop_last()[0] == es[0]);
+        assert(payload(es) =~= frame(es[0]) + payload(es.drop_first()));
+    }
+}
+
+pub proof fn lemma_payload_inj(es1: Seq<Ent>, es2: Seq<Ent>)
+    requires payload(es1) == payload(es2),
+    ensures es1 == es2,
+    decreases es1.len()
+{
+    if es1.len() == 0 {
+        if es2.len() > 0 { lemma_payload_front(es2); lemma_leb_len(es2[0].0.len()); assert(false); }
+        assert(es1 =~= es2);
+    } else {
+        lemma_payload_front(es1);
+        if es2.len() == 0 { lemma_leb_len(es1[0].0.len()); assert(false); }
+        lemma_payload_front(es2);
+        lemma_frame_parse(es1[0], es2[0], payload(es1.drop_first()), payload(es2.drop_first()));
+        lemma_payload_inj(es1.drop_first(), es2.drop_first());
+        assert(es1 =~= seq![es1[0]] + es1.drop_first());
+        assert(es2 =~= seq![es2[0]] + es2.drop_first());
+    }
+}
+
+/// where the four parts of a frame lie inside a byte string that contains it at position a
+pub proof fn lemma_frame_parts(e: Ent, s: Seq<u8>, a: int)
+    requires 0 <= a, a + frame(e).len() <= s.len(), s.subrange(a, a + frame(e).len()) == frame(e),
+    ensures
+        leb(e.0.len()).is_prefix_of(s.subrange(a, s.len() as int)),
+        leb(e.1.len()).is_prefix_of(s.subrange(a + leb(e.0.len()).len(), s.len() as int)),
+        s.subrange(a + leb(e.0.len()).len() + leb(e.1.len()).len(), a + leb(e.0.len()).len() + leb(e.1.len()).len() + e.0.len()) == e.0,
+        s.subrange(a + leb(e.0.len()).len() + leb(e.1.len()).len() + e.0.len(), a + frame(e).len()) == e.1,
+        frame(e).len() == leb(e.0.len()).len() + leb(e.1.len()).len() + e.0.len() + e.1.len(),
+{
+    let f = frame(e); let l1 = leb(e.0.len()); let l2 = leb(e.1.len());
+    let n1 = l1.len() as int; let n2 = l2.len() as int;
+    assert forall|k: int| 0 <= k < f.len() implies s[a + k] == f[k] by {
+        assert(s.subrange(a, a + f.len())[k] == f[k]);
+    }
+    let d1 = s.subrange(a, s.len() as int);
+    assert(l1 =~= d1.subrange(0, n1)) by {
+        assert forall|k: int| 0 <= k < n1 implies l1[k] == d1.subrange(0, n1)[k] by { assert(f[k] == l1[k]); assert(s[a + k] == f[k]); }
+    }
+    let d2 = s.subrange(a + n1, s.len() as int);
+    assert(l2 =~= d2.subrange(0, n2)) by {
+        assert forall|k: int| 0 <= k < n2 implies l2[k] == d2.subrange(0, n2)[k] by { assert(f[n1 + k] == l2[k]); assert(s[a + n1 + k] == f[n1 + k]); }
+    }
+    assert(s.subrange(a + n1 + n2, a + n1 + n2 + e.0.len()) =~= e.0) by {
+        assert forall|k: int| 0 <= k < e.0.len() implies s[a + n1 + n2 + k] == e.0[k] by { assert(f[n1 + n2 + k] == e.0[k]); assert(s[a + (n1 + n2 + k)] == f[n1 + n2 + k]); }
+    }
+    assert(s.subrange(a + n1 + n2 + e.0.len(), a + f.len()) =~= e.1) by {
+        assert forall|k: int| 0 <= k < e.1.len() implies s[a + n1 + n2 + e.0.len() + k] == e.1[k] by { assert(f[n1 + n2 + e.0.len() + k] == e.1[k]); assert(s[a + (n1 + n2 + e.0.len() + k)] == f[n1 + n2 + e.0.len() + k]); }
+    }
+}
+
+
+/// facts about the offset table of a block: slot j holds the start of entry j*iv, slots are strictly increasing
+pub proof fn lemma_footer_offsets(es: Seq<Ent>, iv: int)
+    requires iv >= 1, payload(es).len() <= u64::MAX,
+    ensures
+        footer_offsets(es, iv).len() == footer_len(es.len() as int, iv),
+        forall|j: int| 0 <= j < footer_len(es.len() as int, iv) ==> 0 <= j * iv <= es.len()
+            && #[trigger] footer_offsets(es, iv)[j] as int == start_of(es, j * iv)
+            && (es.len() > 0 ==> j * iv < es.len()),
+        forall|a: int, b: int| 0 <= a < b < footer_len(es.len() as int, iv) ==> #[trigger] footer_offsets(es, iv)[a] < #[trigger] footer_offsets(es, iv)[b],
+{
+    let n = es.len() as int;
+    let l = footer_len(n, iv);
+    lemma_footer_last(n, iv);
+    assert forall|j: int| 0 <= j < l implies 0 <= j * iv <= n && #[trigger] footer_offsets(es, iv)[j] as int == start_of(es, j * iv) && (n > 0 ==> j * iv < n) by {
+        lemma_payload_prefix(es, j * iv);
+    }
+    assert forall|a: int, b: int| 0 <= a < b < l implies #[trigger] footer_offsets(es, iv)[a] < #[trigger] footer_offsets(es, iv)[b] by {
+        assert(a * iv < b * iv) by (nonlinear_arith) requires 0 <= a < b, iv >= 1;
+        lemma_payload_prefix(es, a * iv); lemma_payload_prefix(es, b * iv);
+        lemma_start_of_mono(es, a * iv, b * iv);
+    }
+}
+pub proof fn lemma_lex_irrefl(a: Seq<u8>)
+    ensures !lex_lt(a, a),
+{
+    lemma_lex_eq(a, a);
+}
+pub proof fn lemma_sorted_distinct(es: Seq<Ent>, i: int, j: int)
+    requires sorted_strict(es), 0 <= i < es.len(), 0 <= j < es.len(), es[i].0 == es[j].0,
+    ensures i == j,
+{
+    if i < j { lemma_sorted_pairwise(es, i, j); lemma_lex_irrefl(es[i].0); }
+    if j < i { lemma_sorted_pairwise(es, j, i); lemma_lex_irrefl(es[i].0); }
+}
+
+
+pub proof fn lemma_floor_at(es: Seq<Ent>, key: Seq<u8>, f: int)
+    requires sorted_strict(es), 0 <= f < es.len(), es[f].0 == key,
+    ensures is_floor(es, key, f),
+{
+    assert forall|j: int| f < j < es.len() implies lex_lt(key, #[trigger] es[j].0) by { lemma_sorted_pairwise(es, f, j); }
+    lemma_lex_eq(key, key);
+}
+pub proof fn lemma_floor_scan(es: Seq<Ent>, key: Seq<u8>, t: int)
+    requires sorted_strict(es), 0 < t <= es.len(), lex_le(es[t - 1].0, key), t < es.len() ==> lex_lt(key, es[t].0),
+    ensures is_floor(es, key, t - 1),
+{
+    assert forall|j: int| t - 1 < j < es.len() implies lex_lt(key, #[trigger] es[j].0) by {
+        if j > t { lemma_sorted_pairwise(es, t, j); lemma_lex_trans(key, es[t].0, es[j].0); }
+    }
+}
+pub proof fn lemma_floor_none(es: Seq<Ent>, key: Seq<u8>)
+    requires sorted_strict(es), es.len() > 0 ==> lex_lt(key, es[0].0),
+    ensures is_floor(es, key, -1),
+{
+    assert forall|j: int| -1 < j < es.len() implies lex_lt(key, #[trigger] es[j].0) by {
+        if j > 0 { lemma_sorted_pairwise(es, 0, j); lemma_lex_trans(key, es[0].0, es[j].0); }
+    }
+}
+pub proof fn lemma_ceil_from_floor(es: Seq<Ent>, key: Seq<u8>, f: int)
+    requires sorted_strict(es), is_floor(es, key, f),
+    ensures
+        f >= 0 && es[f].0 == key ==> is_ceil(es, key, f),
+        !(f >= 0 && es[f].0 == key) ==> is_ceil(es, key, f + 1),
+{
+    if f >= 0 && es[f].0 == key {
+        assert forall|j: int| 0 <= j < f implies lex_lt(#[trigger] es[j].0, key) by { lemma_sorted_pairwise(es, j, f); }
+        lemma_lex_eq(key, key);
+    } else {
+        assert forall|j: int| 0 <= j < f + 1 implies lex_lt(#[trigger] es[j].0, key) by {
+            lemma_lex_eq(es[f].0, key);
+            if j < f { lemma_sorted_pairwise(es, j, f); lemma_lex_trans(es[j].0, es[f].0, key); }
+        }
+        if f + 1 < es.len() { assert(lex_lt(key, es[f + 1].0)); }
+    }
+}
+
+
+/// block_bytes determines the entries: the trailing u32 gives the slot count, hence where the payload ends
+pub proof fn lemma_block_bytes_inj(es: Seq<Ent>, iv: int, es2: Seq<Ent>, iv2: int)
+    requires block_bytes(es, iv) == block_bytes(es2, iv2), iv >= 1, iv2 >= 1,
+        footer_len(es.len() as int, iv) <= u32::MAX, footer_len(es2.len() as int, iv2) <= u32::MAX,
+    ensures es == es2,
+{
+    let r1 = block_bytes(es, iv); let r2 = block_bytes(es2, iv2);
+    let l1 = footer_len(es.len() as int, iv); let l2 = footer_len(es2.len() as int, iv2);
+    lemma_footer_last(es.len() as int, iv); lemma_footer_last(es2.len() as int, iv2);
+    lemma_be64s_len(footer_offsets(es, iv)); lemma_be64s_len(footer_offsets(es2, iv2));
+    lemma_be_len(l1 as nat, 4); lemma_be_len(l2 as nat, 4);
+    assert(r1.subrange(r1.len() - 4, r1.len() as int) =~= be32(l1 as u32));
+    assert(r2.subrange(r2.len() - 4, r2.len() as int) =~= be32(l2 as u32));
+    lemma_pow256();
+    lemma_be_inj(l1 as nat, l2 as nat, 4);
+    assert(payload(es).len() == payload(es2).len());
+    assert(payload(es) =~= r1.subrange(0, payload(es).len() as int));
+    assert(payload(es2) =~= r2.subrange(0, payload(es2).len() as int));
+    lemma_payload_inj(es, es2);
 }
 
 } // mod ghost
